@@ -109,7 +109,7 @@ TIMEOUT_IS_VIOLATION = False
 CONFIRM_TRIES = 6
 CONFIGS = {
     "quick": [("inproc", 1800), ("lib", 6000), ("proc", 130),
-              ("proclib", 60)],
+              ("proclib", 90)],
     "thorough": [("inproc", 6), ("lib", 2), ("proc", 3), ("proclib", 1)],
 }
 CHUNK = 40
@@ -134,7 +134,11 @@ def _workdir():
 
 
 PROCLIB_SEEDS = ["('run', 3)", "'text'", "2.5", "b'abc'",
-                 "frozenset({1, 2, 3})", "('a', ('b', 1.5))", "7"]
+                 "frozenset({1, 2, 3})", "('a', ('b', 1.5))", "7",
+                 "frozenset({'a', 'b', 'c'})", "('k', frozenset({'x', 'y'}))",
+                 "K(3, 7)", "(K(1, 2), 5)"]
+PROCLIB_FUNCS = ["RandomKCNF", "RandomKXOR", "glrd", "glrm", "glrp",
+                 "regular"]
 
 
 def generate(rng, config):
@@ -142,7 +146,7 @@ def generate(rng, config):
     if config == "proclib":
         # a library generator with a seed that is not an integer, called in
         # two interpreters with different hash seeds
-        return {"proclib": rng.choice(["RandomKCNF", "RandomKXOR"]),
+        return {"proclib": rng.choice(PROCLIB_FUNCS),
                 "seedexpr": rng.choice(PROCLIB_SEEDS),
                 "n": rng.randint(3, 9), "k": rng.randint(1, 3),
                 "m": rng.randint(1, 6),
@@ -320,11 +324,33 @@ def _run_inproc(case, pre, garbage, which=0):
 
 
 def _exec_proclib(case, ctx):
+    k, n, m = min(case["k"], case["n"]), case["n"], case["m"]
+    callexpr = {
+        "RandomKCNF": "cnfgen.RandomKCNF(%d, %d, %d, seed=SEED)" % (k, n, m),
+        "RandomKXOR": "cnfgen.RandomKXOR(%d, %d, %d, seed=SEED)" % (k, n, m),
+        "glrd": "G.bipartite_random_left_regular(%d, %d, %d, seed=SEED)" % (
+            n, n, k),
+        "glrm": "G.bipartite_random_m_edges(%d, %d, %d, seed=SEED)" % (
+            n, n, m),
+        "glrp": "G.bipartite_random(%d, %d, 0.5, seed=SEED)" % (n, n),
+        "regular": "G.bipartite_random_regular(%d, %d, %d, seed=SEED)" % (
+            n, n, k)}[case["proclib"]]
+    # (the seed expression is evaluated once per call: two equal objects)
     code = ("import cnfgen\n"
-            "F = cnfgen.%s(%d, %d, %d, seed=%s)\n"
-            "print(F.number_of_variables(), list(F))\n" % (
-                case["proclib"], min(case["k"], case["n"]), case["n"],
-                case["m"], case["seedexpr"]))
+            "import cnfgen.graphs as G\n"
+            "class K:\n"
+            "    def __init__(s, a, b): s.a, s.b = a, b\n"
+            "    def __eq__(s, o): return isinstance(o, K) and "
+            "(s.a, s.b) == (o.a, o.b)\n"
+            "    def __hash__(s): return hash((s.a, s.b))\n"
+            "def show(X):\n"
+            "    if hasattr(X, 'number_of_variables'):\n"
+            "        return (X.number_of_variables(), list(X))\n"
+            "    return (X.left_order(), X.right_order(), "
+            "[tuple(e) for e in X.edges()])\n"
+            "for _ in range(2):\n"
+            "    print(show(%s))\n" % callexpr.replace("SEED",
+                                                      case["seedexpr"]))
     outs = []
     for hs in case["hashseeds"]:
         env = {"PATH": os.environ.get("PATH", "/usr/bin:/bin"),
@@ -340,12 +366,21 @@ def _exec_proclib(case, ctx):
     ctx.shape = (case["proclib"], case["seedexpr"], case["n"], case["k"],
                  case["m"])
     ctx.nontrivial = outs[0][0] == 0
-    where = "cnfgen.%s(%d, %d, %d, seed=%s)" % (
-        case["proclib"], min(case["k"], case["n"]), case["n"], case["m"],
-        case["seedexpr"])
+    where = callexpr.replace("SEED", case["seedexpr"])
     if outs[0][0] != outs[1][0]:
         raise Violation("C07/proclib/exit-status-differs", "%s\n%r\n%r" %
                         (where, outs[0], outs[1]))
+    for rc, out, _ in outs:
+        lines = out.decode().splitlines()
+        if rc == 0 and len(lines) == 2 and lines[0] != lines[1]:
+            raise Violation("C07/proclib/equal-seeds-differ",
+                            "%s called twice in one process with equal seed "
+                            "objects:\n%s\n%s" % (where, lines[0][:300],
+                                                  lines[1][:300]))
+    if outs[0][0] != 0 and b"TypeError" in outs[0][2]:
+        # documented as 'hashable object': every such seed is served
+        raise Violation("C07/proclib/seed-refused",
+                        "%s\n%s" % (where, outs[0][2].decode()[-300:]))
     if outs[0][0] == 0 and outs[0][1] != outs[1][1]:
         raise Violation("C07/proclib/output-differs",
                         "%s\nPYTHONHASHSEED=%s: %s\nPYTHONHASHSEED=%s: %s" %
